@@ -56,9 +56,13 @@ def candidate_modes(subj, lab, tier, nfeat):
         return out
     out.append(("none", None))
     subsets = []
-    if tier == "thorough":
+    if tier == "thorough" and len(u) <= 3:
         for r in range(1, len(u) + 1):
             subsets += [list(c) for c in itertools.combinations(u, r)]
+    elif tier == "thorough":
+        # more than three unlabeled samples: all of them, every single one, every pair, and the complement of every single one
+        subsets.append(list(u))
+        subsets += [[i] for i in u] + [list(c) for c in itertools.combinations(u, 2)] + [[j for j in u if j != i] for i in u]
     else:
         subsets.append(list(u))
         if len(u) > 1:
@@ -76,7 +80,7 @@ def candidate_modes(subj, lab, tier, nfeat):
         lbl = [i for i in range(n) if i not in u]
         extra = []
         if lbl:
-            if tier == "thorough":
+            if tier == "thorough" and n <= 4:
                 for r in range(1, n + 1):
                     for c in itertools.combinations(range(n), r):
                         if any(i in lbl for i in c):
